@@ -32,7 +32,7 @@ def run(tier):
                       "with default + scalar * delta. Scaled / stretched contours (no forced point) and rigid-run deltas (pinned "
                       "points in zero runs of sparse tuples) are part of the recorded families. The serialized tuple data of the "
                       "corpus fonts' glyphs is sliced from the raw gvar bytes and GvarTrace!TGvarRead decodes point numbers and "
-                      "deltas with PackedRuns.tla against the lists read-fonts yields.")
+                      "deltas with PackedRuns.tla against the lists read-fonts yields. A gvar with 4500 distinct peak tuples, each used by two glyphs (more shared-tuple candidates than a 12-bit index names), is compiled and every tuple read back with its peak and delta.")
     ck.assumptions = ["the tuple headers / serialized data of gvar are read through read-fonts (only the packed runs have an "
                       "independent TLA+ decoder)", "application check restricted to accumulated deltas within the scaler's "
                       "16.16 range; tolerances never sit on a representable boundary",
@@ -59,6 +59,10 @@ def run(tier):
     res = vlib.run_harness("fv-write", ["c10", "corpus", "--per-font", 12 if tier == "quick" else 60, "--out", t3])
     ck.add_harness("record:corpus", res, traces=False)
     validate(ck, wd, "corpus", t3)
+    t4 = os.path.join(wd, "bigpeaks.ndjson")
+    res = vlib.run_harness("fv-write", ["c10", "bigpeaks", "--peaks", 4500 if tier == "quick" else 9000, "--out", t4])
+    ck.add_harness("record:bigpeaks", res, traces=False)
+    validate(ck, wd, "bigpeaks", t4)
     return ck.finish()
 
 
